@@ -125,7 +125,7 @@ def dev_behaviours(sc):
 
 def exhaustive(sc, tier):
     cfg = 'MC_LinkBuffer_quick.cfg' if tier == 'quick' else 'MC_LinkBuffer.cfg'
-    out, _ = tlc_run(sc, cfg, 'main', timeout=3000)
+    out, _ = tlc_run(sc, cfg, 'main', timeout=3000 if tier == 'quick' else 7200)
     if not vlib.tlc_ok(out):
         raise vlib.Inconclusive('LinkBuffer.tla exhaustive check did not pass: %s' % (vlib.tlc_violation(out) or out[-800:]))
     st = vlib.tlc_stats(out)
